@@ -1,6 +1,7 @@
 (* Properties/C03.v — Encoders and decoders are mutually inverse at every layer.
    Only statements, each closed by [exact] of a lemma proved in Proofs/. *)
-From PV Require Import Base.Prelude Base.Slice Model.EncodeBase Model.Encode Spec.EncodeRef Proofs.Encode Proofs.EncodeIP4 Proofs.EncodeEther Proofs.EncodeMisc.
+From PV Require Import Base.Prelude Base.Slice Model.EncodeBase Model.Encode Model.EncodeCompose Spec.EncodeRef
+     Proofs.Encode Proofs.EncodeIP4 Proofs.EncodeEther Proofs.EncodeMisc Proofs.EncodeCompose.
 Open Scope N_scope.
 
 (* EncodeEther: for every buffer of capacity >= 14 (any length, any contents), every
@@ -254,3 +255,50 @@ Theorem C03_ns_rt_partial : forall tip slla,
                               rn_options := [(NS_OPT_TYPE, slla)] |}.
 Proof. exact ns_rt_partial. Qed.
 Print Assumptions C03_ns_rt_partial.
+
+(* ---------------------------------------------------------------- *)
+(* The frame composed the way the library's senders do it (EncodeEther, EncodeIP4 in
+   ether.Payload(), EncodeUDP in ip4.Payload(), udp.AppendPayload, ip4.SetPayload,
+   ether.SetPayload): bytes, Session.Parse classification by ports, and decoding layer by
+   layer through the reference decoders and through the library views; the three length fields
+   are consistent (frame = 14 + TotalLen, TotalLen = 20 + UDP length, UDP length = 8 + |data|). *)
+Theorem C03_compose_classified : forall b smac dmac ttl sip dip sp dp data,
+  (42 + length data <= cap b)%nat -> length smac = 6%nat -> length dmac = 6%nat ->
+  is4 sip = true -> is4 dip = true -> 42 + N.of_nat (length data) < 65536 ->
+  bytes_ok smac -> bytes_ok dmac -> bytes_ok sip -> bytes_ok dip -> bytes_ok data ->
+  ttl < 256 -> sp < 65536 -> dp < 65536 -> N.land (nth 0 smac 0) 1 = 0 ->
+  let udpb := udp_hdr sp dp (8 + N.of_nat (length data)) ++ data in
+  exists f,
+    compose_udp4 b smac dmac ttl sip dip sp dp data = Ok f /\
+    len f = (42 + length data)%nat /\ cap f = cap b /\
+    skipn (42 + length data) (arr f) = skipn (42 + length data) (arr b) /\
+    view f = frame4_bytes smac dmac ttl sip dip sp dp data /\
+    parse_class f = Ok (class_of_ports sp dp, false) /\
+    (exists ipb,
+       ref_ether (view f) = Some {| re_dst := dmac; re_src := smac; re_type := ETH_P_IP; re_payload := ipb |} /\
+       length ipb = (20 + length udpb)%nat /\
+       ref_ip4 ipb = Some (ip4_expected_ref ttl 17 sip dip udpb) /\
+       ref_udp udpb = Some (udp_expected_ref sp dp data)) /\
+    (ipv <- ether_payload f ;; ip4_decode_lib ipv)%res = Ok (ip4_expected_view ttl 17 sip dip udpb) /\
+    (ipv <- ether_payload f ;; u <- ip4_payload ipv ;; udp_decode_lib u)%res = Ok (udp_expected_view sp dp data).
+Proof. exact compose_udp4_rt. Qed.
+Print Assumptions C03_compose_classified.
+
+(* class_of_ports is the library's cascade; it names the protocol that was encoded: *)
+Theorem C03_class_by_dst_port : forall id ports dstonly sp dp,
+  In (id, ports, dstonly) port_table -> In dp ports -> ephemeral sp -> class_of_ports sp dp = id.
+Proof. exact class_of_ports_dst. Qed.
+Print Assumptions C03_class_by_dst_port.
+
+Theorem C03_class_by_src_port : forall id ports sp dp,
+  In (id, ports, false) port_table -> In sp ports -> ephemeral dp -> class_of_ports sp dp = id.
+Proof. exact class_of_ports_src. Qed.
+Print Assumptions C03_class_by_src_port.
+
+Theorem C03_class_other : forall sp dp, ephemeral sp -> ephemeral dp -> class_of_ports sp dp = PayloadUDP.
+Proof. exact class_of_ports_other. Qed.
+Print Assumptions C03_class_other.
+
+Example C03_class_ex : class_of_ports 68 67 = PayloadDHCP4 /\ class_of_ports 50000 53 = PayloadDNS /\ ephemeral 50000.
+Proof. exact class_of_ports_ex. Qed.
+Print Assumptions C03_class_ex.
